@@ -3,5 +3,5 @@ CONSTANTS
   ValueUniverses <- VU_thorough
   MetaUniverses <- MU_thorough
   Metas <- MetasStd
-INVARIANTS Total SelfDelimiting ExtensionStable NestedValid MetaLaws
+INVARIANTS Total SelfDelimiting ExtensionStable NestedValid MetaLaws Emit
 CHECK_DEADLOCK FALSE
